@@ -267,7 +267,7 @@ def rotate_rho_probs(
     else:
         # pick out the entries of rho that we actually need
         idx = _convert_basis_element_to_index(v).long()
-        rho = rho[:, idx.unsqueeze(0), idx.unsqueeze(1)]
+        rho = rho[:, idx.unsqueeze(1), idx.unsqueeze(0)]
 
     rho = cplx.numpy(rho.cpu())
     Ut *= rho
